@@ -30,6 +30,17 @@ def main(argv):
 
 def replay(path):
     doc = json.load(open(path))
+    if doc.get('replay_kind') == 'history':
+        from contracts import wrapper_explore as WE
+        v = doc['history']
+        print('history on the real code: %s  config=%s' % ([WE._short(o) for o in v['history']], v.get('config')))
+        print('state before the last operation: %s' % json.dumps(v['state']))
+        still = WE.replay_history(v)
+        if still:
+            print('REPRODUCED: clause %s (%s) is violated by the real code on this history' % (v['clause'], doc.get('obligation')))
+            return 1
+        print('not reproduced')
+        return 0
     spec = doc.get('spec') or (doc.get('replay') or {}).get('spec')
     if spec is None:
         print('replay file names obligation %s; the verifier gave no replayable input:' % doc.get('obligation'))
